@@ -26,6 +26,7 @@ package main
 
 import (
 	"fmt"
+	"regexp"
 	"go/ast"
 	"go/constant"
 	"go/token"
@@ -85,6 +86,7 @@ func init() {
 
 type cgFunc struct {
 	name   string // lean name (unqualified)
+	p      *pkgInfo // the package the function lives in (emulator/bus for the bus.Bus access functions of cpu65c816)
 	fd     *ast.FuncDecl
 	isBus  bool // method of cpualt.Bus
 	pure   bool // no CPU / Bus receiver or parameter
@@ -115,6 +117,9 @@ type cg struct {
 	fresh    bool
 	inLambda int
 	usesLatch bool
+	devs     map[types.Object]string // bus.Bus functions: memory device variable -> the address expression its segment lookup used
+	eaSrc    string                  // source text of the expression last assigned to b.EA
+	latchOut  bool // the function only sets the interrupt latch: it takes the latch and returns the new value
 	outlining bool
 	helpers  []string          // outlined switch functions of the current function (emitted before it)
 	alias    map[string]string // inside a single-field update block: reads of that field refer to the running value
@@ -241,13 +246,81 @@ func (g *cg) cpuField(e ast.Expr) (string, bool) {
 	return "", false
 }
 
-func (g *cg) isBusM(e ast.Expr) bool {
+func (g *cg) isBusM(e ast.Expr) bool { return g.busField(e) == "M" }
+
+// busField: b.M (cpualt.Bus open-bus latch), b.EA / b.Write (bus.Bus debug fields) of the bus receiver
+func (g *cg) busField(e ast.Expr) string {
 	sel, ok := e.(*ast.SelectorExpr)
-	if !ok || sel.Sel.Name != "M" {
-		return false
+	if !ok {
+		return ""
 	}
 	id, ok := sel.X.(*ast.Ident)
-	return ok && g.busObj != nil && g.p.info.Uses[id] == g.busObj
+	if !ok || g.busObj == nil || g.p.info.Uses[id] != g.busObj {
+		return ""
+	}
+	switch sel.Sel.Name {
+	case "M", "EA", "Write":
+		return sel.Sel.Name
+	}
+	return ""
+}
+
+// segLookup recognises `b.segment[X>>4]` and returns the source text of X
+func (g *cg) segLookup(e ast.Expr) (string, bool) {
+	ix, ok := e.(*ast.IndexExpr)
+	if !ok {
+		return "", false
+	}
+	sel, ok := ix.X.(*ast.SelectorExpr)
+	if !ok || sel.Sel.Name != "segment" {
+		return "", false
+	}
+	id, ok := sel.X.(*ast.Ident)
+	if !ok || g.busObj == nil || g.p.info.Uses[id] != g.busObj {
+		return "", false
+	}
+	sh, ok := ix.Index.(*ast.BinaryExpr)
+	if !ok || sh.Op != token.SHR || exprString(sh.Y) != "4" {
+		g.die(e, "segment table index must have the form a>>4")
+	}
+	return exprString(sh.X), true
+}
+
+// assignedOnce: every identifier of the expression text is a parameter or a variable assigned exactly once in the function, so that
+// two occurrences of the same text denote the same value
+func (g *cg) stableText(e ast.Expr) bool {
+	ok := true
+	ast.Inspect(e, func(n ast.Node) bool {
+		id, isId := n.(*ast.Ident)
+		if !isId {
+			return true
+		}
+		o := g.p.info.Uses[id]
+		if o == nil {
+			return true
+		}
+		cnt := 0
+		ast.Inspect(g.cur.fd.Body, func(m ast.Node) bool {
+			switch a := m.(type) {
+			case *ast.AssignStmt:
+				for _, l := range a.Lhs {
+					if li, isI := l.(*ast.Ident); isI && (g.p.info.Uses[li] == o || g.p.info.Defs[li] == o) {
+						cnt++
+					}
+				}
+			case *ast.IncDecStmt:
+				if li, isI := a.X.(*ast.Ident); isI && g.p.info.Uses[li] == o {
+					cnt += 2
+				}
+			}
+			return true
+		})
+		if cnt > 1 {
+			ok = false
+		}
+		return ok
+	})
+	return ok
 }
 
 func exprString(e ast.Expr) string { return types.ExprString(e) }
@@ -372,6 +445,12 @@ func (g *cg) expr(e ast.Expr, want kind, ind string) (string, kind) {
 				return "c." + f, k
 			}
 			g.die(e, "CPU field %s is outside the modelled register record", f)
+		}
+		if g.busField(e) == "EA" {
+			if !g.used["busEA!"] {
+				g.die(e, "b.EA is read before it is assigned in this function")
+			}
+			return "busEA", kN32
 		}
 		if g.isBusM(e) {
 			if !g.used["busM!"] {
@@ -583,8 +662,21 @@ func (g *cg) callee(x *ast.CallExpr) (*cgFunc, []ast.Expr, string) {
 	return nil, nil, ""
 }
 
+func (g *cg) funcSigOf(fn *cgFunc) (params []kind, res []kind) {
+	p := fn.p
+	if p == nil {
+		p = g.p
+	}
+	sig := p.info.Defs[fn.fd.Name].Type().(*types.Signature)
+	return sigKinds(sig)
+}
+
 func (g *cg) funcSig(fd *ast.FuncDecl) (params []kind, res []kind) {
 	sig := g.p.info.Defs[fd.Name].Type().(*types.Signature)
+	return sigKinds(sig)
+}
+
+func sigKinds(sig *types.Signature) (params []kind, res []kind) {
 	for i := 0; i < sig.Params().Len(); i++ {
 		t := sig.Params().At(i).Type()
 		if _, isPtr := t.(*types.Pointer); isPtr {
@@ -607,6 +699,31 @@ func (g *cg) call(x *ast.CallExpr, ind string, value bool) (string, kind) {
 				sh, ok := ix.Index.(*ast.BinaryExpr)
 				if !ok || sh.Op != token.SHR || exprString(sh.Y) != "4" || exprString(sh.X) != exprString(x.Args[0]) {
 					g.die(x, "bus table access must have the form b.%s[a>>4](a, …)", sel.Sel.Name)
+				}
+				a, _ := g.expr(x.Args[0], kN32, ind)
+				if sel.Sel.Name == "Read" {
+					t := g.newTmp(kU8)
+					g.emit(ind, "let %s ← Cpu.eaRead %s", t, a)
+					g.fresh = false
+					return t, kU8
+				}
+				v, _ := g.expr(x.Args[1], kU8, ind)
+				g.emit(ind, "Cpu.eaWrite %s %s", a, v)
+				g.fresh = false
+				return "()", kUnit
+			}
+		}
+	}
+	// bus.Bus: mK.Read(a) / mK.Write(a, v) on the memory device looked up for the segment of that very address
+	if sel, ok := x.Fun.(*ast.SelectorExpr); ok && (sel.Sel.Name == "Read" || sel.Sel.Name == "Write") {
+		if id, ok := sel.X.(*ast.Ident); ok {
+			if src, isDev := g.devs[g.p.info.Uses[id]]; isDev {
+				argSrc := exprString(x.Args[0])
+				if g.busField(x.Args[0]) == "EA" {
+					argSrc = g.eaSrc
+				}
+				if argSrc != src {
+					g.die(x, "memory device %s was looked up for address %s but is accessed at %s", id.Name, src, argSrc)
 				}
 				a, _ := g.expr(x.Args[0], kN32, ind)
 				if sel.Sel.Name == "Read" {
@@ -645,7 +762,7 @@ func (g *cg) call(x *ast.CallExpr, ind string, value bool) (string, kind) {
 	case "Cpu.nRead24_wrap":
 		pk, rk = []kind{kU8, kU16}, []kind{kN32}
 	default:
-		pk, rk = g.funcSig(fn.fd)
+		pk, rk = g.funcSigOf(fn)
 		name = g.ns() + "." + fn.name
 		g.cur.deps[fn.name] = true
 	}
@@ -747,6 +864,45 @@ func (g *cg) writesOf(name string, seen map[string]bool) map[string]bool {
 	return w
 }
 
+// isNilPanic: `if d0 == nil || d1 == nil … { panic(…) }` over memory-device variables only
+func (g *cg) isNilPanic(x *ast.IfStmt) bool {
+	if x.Else != nil || x.Init != nil || len(x.Body.List) != 1 {
+		return false
+	}
+	es, ok := x.Body.List[0].(*ast.ExprStmt)
+	if !ok {
+		return false
+	}
+	c, ok := es.X.(*ast.CallExpr)
+	if !ok {
+		return false
+	}
+	if id, ok := c.Fun.(*ast.Ident); !ok || id.Name != "panic" {
+		return false
+	}
+	var onlyNil func(e ast.Expr) bool
+	onlyNil = func(e ast.Expr) bool {
+		switch b := e.(type) {
+		case *ast.ParenExpr:
+			return onlyNil(b.X)
+		case *ast.BinaryExpr:
+			if b.Op == token.LOR {
+				return onlyNil(b.X) && onlyNil(b.Y)
+			}
+			if b.Op == token.EQL {
+				id, ok := b.X.(*ast.Ident)
+				if !ok {
+					return false
+				}
+				_, isDev := g.devs[g.p.info.Uses[id]]
+				return isDev && exprString(b.Y) == "nil"
+			}
+		}
+		return false
+	}
+	return onlyNil(x.Cond)
+}
+
 // escapes: does the statement assign a variable declared outside it, or return?
 func (g *cg) escapes(st ast.Stmt) bool {
 	inner := map[types.Object]bool{}
@@ -778,7 +934,10 @@ func (g *cg) escapes(st ast.Stmt) bool {
 					if id, ok := l.(*ast.Ident); ok && !inner[g.p.info.Uses[id]] {
 						esc = true
 					}
-					if g.isBusM(l) {
+					if g.isBusM(l) || g.busField(l) == "EA" {
+						esc = true
+					}
+					if f, ok := g.cpuField(l); ok && f == "Interrupt" && g.latchOut {
 						esc = true
 					}
 				}
@@ -1006,11 +1165,18 @@ func (g *cg) flagRhs(e ast.Expr, f string, ind string) string {
 
 // obligation builds a closed statement `∀ c locals, (e).toNat ≤ 1`
 func (g *cg) obligation(s string) string {
+	// only the variables that occur in the expression are bound, so that an obligation over byte variables alone is closed and decidable
+	occurs := func(n string) bool {
+		ok, _ := regexp.MatchString(`(^|[^A-Za-z0-9_.])`+regexp.QuoteMeta(n)+`($|[^A-Za-z0-9_])`, s)
+		return ok
+	}
 	var binders []string
-	binders = append(binders, "(c : Regs)")
+	if occurs("c") || strings.Contains(s, "c.") {
+		binders = append(binders, "(c : Regs)")
+	}
 	var names []string
 	for o, n := range g.names {
-		if k, ok := g.kinds[o]; ok && k != kNone {
+		if k, ok := g.kinds[o]; ok && k != kNone && occurs(n) {
 			names = append(names, fmt.Sprintf("(%s : %s)", n, k.lean()))
 		}
 	}
@@ -1018,9 +1184,14 @@ func (g *cg) obligation(s string) string {
 	binders = append(binders, names...)
 	for i := 1; i <= g.tmp; i++ {
 		t := fmt.Sprintf("t%d", i)
-		binders = append(binders, fmt.Sprintf("(%s : %s)", t, g.tmpK[t].lean()))
+		if occurs(t) {
+			binders = append(binders, fmt.Sprintf("(%s : %s)", t, g.tmpK[t].lean()))
+		}
 	}
-	return strings.Join(binders, " ") + " : (" + s + ").toNat ≤ 1"
+	if len(binders) == 0 {
+		return ": (" + s + ").toNat ≤ 1"
+	}
+	return ": ∀ " + strings.Join(binders, " ") + ", (" + s + ").toNat ≤ 1"
 }
 
 func (g *cg) stmts(list []ast.Stmt, ind string) {
@@ -1127,6 +1298,9 @@ func (g *cg) stmt(s ast.Stmt, ind string) {
 		}
 		if mentions(x.Cond, "onWDM", "OnWDM", "OnPC") {
 			return
+		}
+		if g.isNilPanic(x) {
+			return // `if mem == nil { panic(...) }`: no backend attached - excluded by the premise "whole bus mapped"
 		}
 		if g.pureIfFieldSeq(x, ind) {
 			return
@@ -1658,8 +1832,16 @@ func (g *cg) pureIf(x *ast.IfStmt, c string, ind string) bool {
 
 func (g *cg) assign(x *ast.AssignStmt, ind string) {
 	// dropped: anything about the callbacks or the interrupt latch
-	for _, l := range x.Lhs {
+	for i, l := range x.Lhs {
 		if f, ok := g.cpuField(l); ok && f == "Interrupt" {
+			if g.latchOut && len(x.Lhs) == 1 && x.Tok == token.ASSIGN {
+				v, k := g.expr(x.Rhs[i], kLatch, ind)
+				if k != kLatch && k != kInt {
+					g.die(x, "cpu.Interrupt assigned a non-constant")
+				}
+				g.usesLatch = true
+				g.emit(ind, "latch := %s", v)
+			}
 			return
 		}
 		if mentions(l, "onWDM") {
@@ -1668,6 +1850,40 @@ func (g *cg) assign(x *ast.AssignStmt, ind string) {
 	}
 	if len(x.Lhs) == 1 && len(x.Rhs) == 1 {
 		if mentions(x.Rhs[0], "OnWDM", "OnPC") {
+			return
+		}
+	}
+	if len(x.Lhs) == 1 && len(x.Rhs) == 1 {
+		if src, ok := g.segLookup(x.Rhs[0]); ok {
+			id, isId := x.Lhs[0].(*ast.Ident)
+			if !isId || x.Tok != token.DEFINE {
+				g.die(x, "segment lookup must define a new variable")
+			}
+			ix := x.Rhs[0].(*ast.IndexExpr).Index.(*ast.BinaryExpr).X
+			if !g.stableText(ix) {
+				g.die(x, "the address of a segment lookup is reassigned in this function")
+			}
+			g.devs[g.p.info.Defs[id]] = src
+			return
+		}
+		switch g.busField(x.Lhs[0]) {
+		case "Write":
+			return // debug field of bus.Bus, never read by the interpreter
+		case "EA":
+			v, k := g.expr(x.Rhs[0], kN32, ind)
+			if k != kN32 {
+				g.die(x, "b.EA assigned a non-uint32")
+			}
+			if !g.stableText(x.Rhs[0]) {
+				g.die(x, "b.EA assigned from a variable that is reassigned")
+			}
+			g.eaSrc = exprString(x.Rhs[0])
+			if g.used["busEA!"] {
+				g.emit(ind, "busEA := %s", v)
+			} else {
+				g.emit(ind, "let mut busEA : Nat := %s", v)
+				g.used["busEA!"] = true
+			}
 			return
 		}
 	}
@@ -1809,6 +2025,11 @@ func (g *cg) assign(x *ast.AssignStmt, ind string) {
 
 func (g *cg) translate(fn *cgFunc) {
 	fd := fn.fd
+	if fn.p != nil && fn.p != g.p {
+		saved := g.p
+		g.p = fn.p
+		defer func() { g.p = saved }()
+	}
 	g.cur = fn
 	g.cpuObj, g.busObj = nil, nil
 	g.names = map[types.Object]string{}
@@ -1816,6 +2037,8 @@ func (g *cg) translate(fn *cgFunc) {
 	g.used = map[string]bool{}
 	g.lines = nil
 	g.tmp = 0
+	g.devs = map[types.Object]string{}
+	g.eaSrc = ""
 	g.helpers = nil
 	g.tmpK = map[string]kind{}
 	g.fresh = false
@@ -1914,9 +2137,33 @@ func (g *cg) translate(fn *cgFunc) {
 	for _, pn := range ps {
 		g.emit("  ", "let mut %s := %s", pn, pn)
 	}
+	g.latchOut = false
+	if fd.Name.Name != "Step" {
+		ast.Inspect(fd.Body, func(n ast.Node) bool {
+			if a, ok := n.(*ast.AssignStmt); ok {
+				for _, l := range a.Lhs {
+					if sel, ok := l.(*ast.SelectorExpr); ok && sel.Sel.Name == "Interrupt" {
+						g.latchOut = true
+					}
+				}
+			}
+			return true
+		})
+	}
+	if g.latchOut {
+		if len(rk) != 0 {
+			g.die(fd, "a function that sets the interrupt latch and returns a value")
+		}
+		g.emit("  ", "let mut latch := latch")
+		g.usesLatch = true
+	}
 	g.stmts(fd.Body.List, "  ")
-	endsInReturn := false
-	if n := len(fd.Body.List); n > 0 {
+	if g.latchOut {
+		g.emit("  ", "return latch")
+		res = "Nat"
+	}
+	endsInReturn := g.latchOut
+	if n := len(fd.Body.List); n > 0 && !g.latchOut {
 		_, endsInReturn = fd.Body.List[n-1].(*ast.ReturnStmt)
 		if sw, ok := fd.Body.List[n-1].(*ast.SwitchStmt); ok && len(rk) > 0 {
 			_ = sw
@@ -1948,8 +2195,7 @@ func genCpuGo(l *loader) {
 		}
 		g := &cg{l: l, p: p, variant: v.variant, funcs: map[string]*cgFunc{}}
 		skip := map[string]string{
-			"New": "constructor", "Init": "constructor", "InitFrom": "constructor", "triggerNMI": "sets the interrupt latch (InterruptModel.lean)",
-			"TriggerIRQ": "sets the interrupt latch (InterruptModel.lean)", "createTable": "opcode table (gotolean cputables)",
+			"New": "constructor", "Init": "constructor", "InitFrom": "constructor", "createTable": "opcode table (gotolean cputables)",
 			"AttachReader": "bus set-up", "AttachWriter": "bus set-up", "Read8": "unused by the interpreter", "Read16": "unused by the interpreter",
 			"Read24": "unused by the interpreter", "Write8": "unused by the interpreter", "Write16": "unused by the interpreter", "Write24": "unused by the interpreter",
 		}
@@ -1990,6 +2236,25 @@ func genCpuGo(l *loader) {
 					fn.name = "Bus_" + fn.name
 				}
 				g.funcs[fn.name] = fn
+			}
+		}
+		if v.variant == "Primary" {
+			// cpu65c816 reaches memory through emulator/bus: its three access functions are translated too (as Bus_EaRead, …)
+			bp, err := l.load("emulator/bus")
+			if err != nil {
+				die("cpugo: %v", err)
+			}
+			for _, f := range bp.files {
+				for _, d := range f.Decls {
+					fd, ok := d.(*ast.FuncDecl)
+					if !ok || fd.Body == nil || fd.Recv == nil {
+						continue
+					}
+					switch fd.Name.Name {
+					case "EaRead", "EaWrite", "EaRead24_wrap":
+						g.funcs["Bus_"+fd.Name.Name] = &cgFunc{name: "Bus_" + fd.Name.Name, p: bp, fd: fd, isBus: true}
+					}
+				}
 			}
 		}
 		var names []string
